@@ -509,9 +509,9 @@ pub fn step(forms: Vec<FForm>, m: N) -> impl Strategy<Value = Step> {
         .prop_map(move |(i, x, y, limbs, n_items, flag, rel, rk, rv)| Step { form: forms[pick(i, n)], x, y, limbs, n: n_items, flag, rel, rk, rv })
 }
 
-fn chain(bk: Bk, f: FId) -> BoxedStrategy<Case> {
+fn chain(bk: Bk, f: FId, max_len: usize) -> BoxedStrategy<Case> {
     let m = f.fld().m.clone();
-    (gen::fe(&m), proptest::collection::vec(step(forms_for(bk, f), m.clone()), 1..=6)).prop_map(move |(init, steps)| Case { bk, f, init, steps }).boxed()
+    (gen::fe(&m), proptest::collection::vec(step(forms_for(bk, f), m.clone()), 1..=max_len)).prop_map(move |(init, steps)| Case { bk, f, init, steps }).boxed()
 }
 
 impl Property for C10 {
@@ -537,14 +537,15 @@ impl Property for C10 {
     fn cases(&self, tier: Tier) -> u64 {
         tier.pick(1_200_000, 24_000_000)
     }
-    fn strategy(&self, _tier: Tier) -> BoxedStrategy<Case> {
+    fn strategy(&self, tier: Tier) -> BoxedStrategy<Case> {
+        let n = tier.pick(6, 20) as usize;
         prop_oneof![
-            3 => chain(Bk::Ark, FId::Fq),
-            2 => chain(Bk::Ark, FId::Fr),
-            2 => chain(Bk::Ark, FId::Fp),
-            3 => chain(Bk::Min, FId::Fq),
-            2 => chain(Bk::Min, FId::Fr),
-            2 => chain(Bk::Min, FId::Fp),
+            3 => chain(Bk::Ark, FId::Fq, n),
+            2 => chain(Bk::Ark, FId::Fr, n),
+            2 => chain(Bk::Ark, FId::Fp, n),
+            3 => chain(Bk::Min, FId::Fq, n),
+            2 => chain(Bk::Min, FId::Fr, n),
+            2 => chain(Bk::Min, FId::Fp, n),
         ]
         .boxed()
     }
